@@ -68,7 +68,7 @@ def _token(p: _P):
 
 def parse_response(buf, pos: int):
     """One complete response (data lines + final OK/NO/BYE line)."""
-    p = _P(buf, pos)
+    p = _P(buf, pos, utf8_quoted=True)
     lines = []
     while True:
         toks = [_token(p)]
